@@ -832,7 +832,25 @@ impl PG<'_> {
 
     /// constructs whose outcome depends on a restriction flag (C07)
     fn restrict_expr(&mut self, depth: u32) -> Value {
-        match self.r.below(9) {
+        match self.r.below(10) {
+            8 => {
+                // g1_multiply / g2_multiply with a scalar around the LIMITS size (1024 bytes)
+                let n = *self.r.pick(&[1024usize, 1025, 1025, 1100]);
+                let mut sc = self.r.bytes(n);
+                sc[0] &= 0x7f;
+                if self.r.chance(1, 3) {
+                    // 1025 bytes whose first byte is a sign byte (the magnitude is 1024 bytes)
+                    sc = vec![0xffu8; 1025];
+                    sc[0] = 0;
+                }
+                if self.r.chance(1, 2) {
+                    let g1 = hex::decode("97f1d3a73197d7942695638c4fa9ac0fc3688c4f9774b905a14e3a3f171bac586c55e83ff97a1aeffb3af00adb22c6bb").unwrap();
+                    list_json(&[atom_json(&[50]), q(atom_json(&g1)), q(atom_json(&sc))])
+                } else {
+                    let g2 = hex::decode("93e02b6052719f607dacd3a088274f65596bd0d09920b61ab5da61bbdc7f5049334cf11213945d57e5ac7d055d042b7e024aa2b2f08f0a91260805272dc51051c6e47ad4fa403b02b4510b647ae3d1770bac0326a805bbefd48056c8c121bdb8").unwrap();
+                    list_json(&[atom_json(&[54]), q(atom_json(&g2)), q(atom_json(&sc))])
+                }
+            }
             0 => {
                 let en = 1 + self.r.below(2) as usize;
                 let e = self.r.bytes(en);
